@@ -204,6 +204,19 @@ Definition affects_query (q : iquery) (before after : option V) : bool :=
   let bk := opt_key (qidx q) before in
   let ak := opt_key (qidx q) after in
   if okey_eq bk ak then false else
+  (* wasMatch := beforeKey != nil && bytes.HasPrefix(beforeKey, iq.KeyPrefix) *)
+  let was := is_some bk && has_prefix (qprefix q) (key_or_nil bk) in
+  let isn := is_some ak && has_prefix (qprefix q) (key_or_nil ak) in
+  let was' := match qfilter q with Some f => if was then f (key_or_nil bk) else was | None => was end in
+  let isn' := match qfilter q with Some f => if isn then f (key_or_nil ak) else isn | None => isn end in
+  was' || isn'.
+
+(* affectsQuery before the fix: tested the VALUE for nil (`qc.before != nil`),
+   so a present value with a nil key matched an empty KeyPrefix *)
+Definition affects_query_v0 (q : iquery) (before after : option V) : bool :=
+  let bk := opt_key (qidx q) before in
+  let ak := opt_key (qidx q) after in
+  if okey_eq bk ak then false else
   let was := is_some before && has_prefix (qprefix q) (key_or_nil bk) in
   let isn := is_some after && has_prefix (qprefix q) (key_or_nil ak) in
   let was' := match qfilter q with Some f => if was then f (key_or_nil bk) else was | None => was end in
